@@ -90,6 +90,27 @@ def group_dicts(config: dict, params_per_group: list[list[torch.nn.Parameter]]) 
     return dicts, effs
 
 
+def is_lapack_failure(opt: Any, params: list, e: Exception) -> bool:
+    """torch.linalg.eigh occasionally returns NaN for a finite float32 matrix (LAPACK ssyevd, seen on sparse rank-one 64x64 input).
+    The optimizer then raises PreconditionerValueError as documented (C13).  That is accepted as the end of a history only when an
+    independent eigh call on a stored factor matrix, in the factor dtype, reproduces the non-finite result."""
+    if type(e).__name__ != "PreconditionerValueError" or ("inverse factor matrix" not in str(e) and "eigenvectors of factor matrix" not in str(e)):
+        return False
+    for p in params:
+        for k, bs in opt.state[p].items():
+            if isinstance(k, str) and k.startswith("block_") and "shampoo" in bs:
+                for F in bs["shampoo"].factor_matrices:
+                    F = rm.local(F)
+                    if F.numel() > 1 and bool(torch.isfinite(F).all()) and F.dtype in (torch.float32, torch.float64):
+                        try:
+                            L, Q = torch.linalg.eigh(F)
+                        except Exception:  # noqa: BLE001
+                            return True
+                        if not bool(torch.isfinite(L).all() and torch.isfinite(Q).all()):
+                            return True
+    return False
+
+
 class OptRunner:
     """Runs one optimizer over a history; `step` returns the failures of that step."""
 
@@ -102,11 +123,22 @@ class OptRunner:
         self.groups = config["groups"]
         self.params: list[list[torch.nn.Parameter]] = []
         self.shapes: list[list[list[int]]] = []
+        self.pdts: list[list[torch.dtype]] = []  # per group, per parameter (a group may mix parameter dtypes: "pdtypes")
         for gi, g in enumerate(self.groups):
-            dt = gen.DT[g["cfg"]["pdtype"]]
-            self.params.append(gen.make_params(g["shapes"], config.get("pseed", 0) * 17 + gi, dt, g["cfg"].get("gscale", 1.0)))
+            names = list(g.get("pdtypes") or [])[: len(g["shapes"])]
+            names += [g["cfg"]["pdtype"]] * (len(g["shapes"]) - len(names))
+            self.pdts.append([gen.DT[x] for x in names])
+            self.params.append(gen.make_params(g["shapes"], config.get("pseed", 0) * 17 + gi, self.pdts[gi], g["cfg"].get("gscale", 1.0)))
             self.shapes.append(g["shapes"])
         dicts, self.eff = group_dicts(config, self.params)
+        self.lr_tensor = bool(config.get("lr_tensor"))
+        extra = dict(extra or {})
+        if self.lr_tensor:
+            # the learning rate as a 0-d tensor, which schedulers update in place (torch.optim's tensor-lr convention)
+            for d in dicts:
+                if "lr" in d:
+                    d["lr"] = torch.tensor(d["lr"], dtype=torch.float32)
+            extra.setdefault("lr", torch.tensor(self.groups[0]["cfg"]["lr"], dtype=torch.float32))
         self.hp = [dict(e) for e in self.eff]  # current hyperparameters (edited by schedules)
         self.t = [0] * len(self.groups)
         self.dead = False
@@ -147,13 +179,53 @@ class OptRunner:
         for gi, grp in enumerate(self.opt.param_groups):
             hp = self.hp[gi]
             if "lr" in edits:
-                grp["lr"] = hp["lr"] = edits["lr"]
+                hp["lr"] = edits["lr"]
+                if isinstance(grp["lr"], torch.Tensor):
+                    grp["lr"].fill_(edits["lr"])
+                else:
+                    grp["lr"] = edits["lr"]
             if "wd" in edits:
                 grp["weight_decay"] = hp["wd"] = edits["wd"]
             if "momentum_scale" in edits and self.eff[gi].get("momentum", 0.0) != 0.0:
                 # momentum changes only between non-zero values or to zero (buffers exist iff the initial value was non-zero)
                 new = self.eff[gi]["momentum"] * edits["momentum_scale"]
                 grp["momentum"] = hp["momentum"] = new
+
+    def checkpoint_op(self, what: str) -> list[Failure]:
+        """'save': keep a serialized distributed state dict + parameter values; 'load': roll the *live, already-stepped* optimizer back to it
+        (the loader's documented use: the state is copied into the existing state tensors).  The history then simply continues from the restored
+        state: every later step is again checked against the recurrences, so Python-side caches that went stale with the load become visible."""
+        import io
+
+        if what == "save":
+            try:
+                sd = self.opt.distributed_state_dict(key_to_param=iter(self.named_params()))
+                buf = io.BytesIO()
+                torch.save(sd, buf)
+            except Exception as e:  # noqa: BLE001
+                import traceback
+
+                self.dead = True
+                return [Failure(f"{self.PREFIX}.ckpt.save_raises", f"distributed_state_dict raised {type(e).__name__}", traceback.format_exc()[-2000:])]
+            self._ckpt = (buf.getvalue(), [p.detach().clone() for p in self.all_params()], [dict(h) for h in self.hp], list(self.t), list(self._had_refresh))
+            self.stats["ckpt_saves"] = self.stats.get("ckpt_saves", 0) + 1
+        elif what == "load" and getattr(self, "_ckpt", None) is not None and self.nsteps > 0:
+            raw, ws, hp, t, had = self._ckpt
+            sd = torch.load(io.BytesIO(raw), weights_only=False)
+            try:
+                with torch.no_grad():
+                    for p, w in zip(self.all_params(), ws):
+                        p.copy_(w)
+                self.opt.load_distributed_state_dict(sd, key_to_param=iter(self.named_params()))
+            except Exception as e:  # noqa: BLE001
+                import traceback
+
+                self.dead = True
+                return [Failure(f"{self.PREFIX}.ckpt.load_raises", f"loading the optimizer's own earlier checkpoint raised {type(e).__name__}", traceback.format_exc()[-2000:])]
+            self.hp, self.t, self._had_refresh = [dict(h) for h in hp], list(t), list(had)
+            self._prev_mask = None
+            self.stats["ckpt_rollbacks"] = self.stats.get("ckpt_rollbacks", 0) + 1
+        return []
 
     def make_grads(self, s: dict) -> list[list[torch.Tensor | None]]:
         idx = 0
@@ -163,7 +235,7 @@ class OptRunner:
             sub = dict(s)
             sub["mask"] = s["mask"][idx: idx + n]
             sub["gseed"] = s["gseed"] + 1000 * gi
-            grads.append(gen.step_grads(g["shapes"], sub, gen.DT[g["cfg"]["pdtype"]]))
+            grads.append(gen.step_grads(g["shapes"], sub, self.pdts[gi]))
             idx += n
         return grads
 
@@ -193,6 +265,10 @@ class OptRunner:
             return []
         fails: list[Failure] = []
         P = self.PREFIX
+        if s.get("ckpt"):
+            fails = self.checkpoint_op(s["ckpt"])
+            if fails:
+                return fails
         if "edits" in s:
             self.apply_edits(s["edits"])
         mask = s["mask"]
@@ -219,7 +295,7 @@ class OptRunner:
             sub = dict(s)
             sub["mask"] = mask[idx: idx + n]
             sub["gseed"] = s["gseed"] + 1000 * gi
-            grads.append(gen.step_grads(g["shapes"], sub, gen.DT[g["cfg"]["pdtype"]]))
+            grads.append(gen.step_grads(g["shapes"], sub, self.pdts[gi]))
             idx += n
         # snapshots
         prev: dict = {}
@@ -274,8 +350,9 @@ class OptRunner:
                 self.stats["post_refresh_nonrefresh"] += 1
                 if self.stats["nonidentity_refresh"]:
                     self.stats["stale_after_nonidentity"] += 1
-            pd, fd = gen.DT[hp["pdtype"]], gen.DT[hp["fdtype"]]
+            fd = gen.DT[hp["fdtype"]]
             for pi, p in enumerate(ps):
+                pd = self.pdts[gi][pi]
                 pv = prev[(gi, pi)]
                 md, sls = self.layout[gi][pi]
                 if pv["blocks"] is None:
@@ -310,25 +387,7 @@ class OptRunner:
             "exceeded the allowed tolerance" in str(e) or "Encountered nan or inf values in inverse factor matrix" in str(e))
 
     def _is_lapack_failure(self, e: Exception) -> bool:
-        """torch.linalg.eigh occasionally returns NaN for a finite float32 matrix (LAPACK ssyevd, seen on sparse rank-one 64x64 input).
-        The optimizer then raises PreconditionerValueError as documented (C13).  That is accepted as the end of a history only when an
-        independent eigh call on a stored factor matrix, in the factor dtype, reproduces the non-finite result."""
-        if type(e).__name__ != "PreconditionerValueError" or ("inverse factor matrix" not in str(e) and "eigenvectors of factor matrix" not in str(e)):
-            return False
-        for ps in self.params:
-            for p in ps:
-                for k, bs in self.opt.state[p].items():
-                    if isinstance(k, str) and k.startswith("block_") and "shampoo" in bs:
-                        for F in bs["shampoo"].factor_matrices:
-                            F = rm.local(F)
-                            if F.numel() > 1 and bool(torch.isfinite(F).all()) and F.dtype in (torch.float32, torch.float64):
-                                try:
-                                    L, Q = torch.linalg.eigh(F)
-                                except Exception:  # noqa: BLE001
-                                    return True
-                                if not bool(torch.isfinite(L).all() and torch.isfinite(Q).all()):
-                                    return True
-        return False
+        return is_lapack_failure(self.opt, self.all_params(), e)
 
     def _is_overflow(self, e: Exception, prev: dict, grads: list) -> bool:
         """PreconditionerValueError for inf/nan in a factor matrix is the documented response to divergence; it is outside the
@@ -338,8 +397,8 @@ class OptRunner:
         for gi, ps in enumerate(self.params):
             hp = self.hp[gi]
             fmax = 1e-3 * float(torch.finfo(gen.DT[hp["fdtype"]]).max)
-            pmax = 1e-3 * float(torch.finfo(gen.DT[hp["pdtype"]]).max)
             for pi, p in enumerate(ps):
+                pmax = 1e-3 * float(torch.finfo(self.pdts[gi][pi]).max)
                 g = grads[gi][pi]
                 if g is None:
                     continue
@@ -374,7 +433,7 @@ class OptRunner:
     def _check_block(self, gi, pi, bi, pre: rm.BlockSnap, post: rm.BlockSnap, g, w0, w1, hp, t, pd, fd, refresh) -> list[Failure]:
         P = self.PREFIX
         fails: list[Failure] = []
-        where = f"group {gi} param {pi} block {bi} step {t} shape {list(g.shape)} dtypes {hp['pdtype']}/{hp['fdtype']}"
+        where = f"group {gi} param {pi} block {bi} step {t} shape {list(g.shape)} dtypes {str(pd).split('.')[-1]}/{hp['fdtype']}"
         comps = rm.predict_block(pre, post, g, w0, w1, hp, t, pd, fd)
         if any(c.name == "overflow_domain" for c in comps):
             # the documented update itself leaves the finite range of the parameter dtype: outside the property's domain
@@ -449,6 +508,12 @@ class OptRunner:
             cl.append("all_absent_step")
         if len(self.groups) > 1:
             cl.append("multi_group")
+        if any(len(set(d)) > 1 for d in self.pdts):
+            cl.append("mixed_param_dtypes_in_group")
+        if self.lr_tensor:
+            cl.append("lr_tensor")
+        if st.get("ckpt_rollbacks"):
+            cl.append("rollback_into_live_optimizer")
         for e in self.eff:
             cl.append(f"graft_{e['graft']['type'] if e['graft'] else 'none'}")
             cl.append(f"dtypes_{e['pdtype']}/{e['fdtype']}")
@@ -483,7 +548,7 @@ def _is_diag(F: torch.Tensor) -> bool:
     return not bool(F.triu(1).any()) and not bool(F.tril(-1).any())
 
 
-def st_history_config(max_groups: int = 3, max_params: int = 4, max_numel: int = 300, **cfg_kwargs: Any):
+def st_history_config(max_groups: int = 3, max_params: int = 4, max_numel: int = 300, mixed_dtypes: bool = True, lr_tensor: bool = True, **cfg_kwargs: Any):
     """Hypothesis strategy for OptRunner configs."""
     from hypothesis import strategies as st
 
@@ -502,6 +567,9 @@ def st_history_config(max_groups: int = 3, max_params: int = 4, max_numel: int =
             if npar >= 2 and draw(st.booleans()):
                 shapes[1] = list(shapes[0])  # forced class: equal-shaped parameters
             g = {"cfg": cfg, "shapes": shapes}
+            if npar >= 2 and mixed_dtypes and draw(st.sampled_from([False, False, False, True])):
+                # a group may hold parameters of different dtypes (mixed-precision models); the first one keeps the group's nominal dtype
+                g["pdtypes"] = [cfg["pdtype"]] + [draw(st.sampled_from(["f32", "bf16", "f64", "f32"])) for _ in range(npar - 1)]
             if gi > 0:
                 g["inherit"] = sorted(draw(st.sets(st.sampled_from(INHERITABLE), max_size=4)))
                 if "momentum" in g["inherit"]:
@@ -510,6 +578,8 @@ def st_history_config(max_groups: int = 3, max_params: int = 4, max_numel: int =
             groups.append(g)
         c = {"groups": groups, "pseed": draw(st.integers(0, 10**6))}
         gb = draw(st.sampled_from([None, None, None, "rowsparse", "rowsparse", "onehot", "sparse", "rank1"]))
+        if lr_tensor and draw(st.sampled_from([False] * 5 + [True])):
+            c["lr_tensor"] = True  # learning rate held as a 0-d tensor and edited in place by the schedule
         if gb is not None:
             c["gbias"] = gb  # most steps of this history use one structured gradient kind (stable sparsity patterns, sticky diagonal flags)
         return c
@@ -517,7 +587,20 @@ def st_history_config(max_groups: int = 3, max_params: int = 4, max_numel: int =
     return config()
 
 
-def st_history_step(runner: OptRunner, **kw: Any):
+def st_history_step(runner: OptRunner, checkpoints: bool = True, **kw: Any):
     n = sum(len(g["shapes"]) for g in runner.groups)
     gscale = runner.groups[0]["cfg"].get("gscale", 1.0)
-    return gen.st_step(n, gscale, gbias=runner.config.get("gbias"), **kw)
+    from hypothesis import strategies as st
+
+    base = gen.st_step(n, gscale, gbias=runner.config.get("gbias"), **kw)
+    if not checkpoints or runner.lr_tensor:
+        return base
+    ops = [None] * 10 + (["save"] if getattr(runner, "_ckpt", None) is None else ["load", "load", "save"])
+
+    def add(s: dict, op: Any) -> dict:
+        if op is not None:
+            s = dict(s)
+            s["ckpt"] = op
+        return s
+
+    return st.builds(add, base, st.sampled_from(ops))
